@@ -77,19 +77,24 @@ theorem C20_parsing_sees_resolved (W : World) (prog : Nat → List Call) (sched 
       simp only [PInv, hpc, PC.parsing] at P hk <;> first | exact P | exact P.1 | cases hk
   exact ⟨fun i hr hd => resolved_fty I.ginv R hr hd, fun i hi => (R i hi).1⟩
 
-/-- When nobody holds the lock, no field is half-way: a listed name still has its `ForwardRef`, a name that was
-taken off the list has its final type (or the class can never be instantiated). -/
+/-- When nobody holds the lock, no field is half-way: a listed name still has its `ForwardRef`, a name that was taken
+off the list has its final type.  (Since names are popped only after the fields were rewritten — also when another
+reference raised — there is no third case any more.) -/
 theorem C20_quiescent (W : World) (prog : Nat → List Call) (sched : List Nat)
     (hl : (run W false (init W prog) sched).g.lock = none) (i : Nat) (hr : W.ref i = true) (hd : W.defd i = true) :
     let g := (run W false (init W prog) sched).g
-    (i ∈ g.pending ∧ g.fty i = .ref) ∨ (i ∉ g.pending ∧ g.fty i = .res .parsed)
-      ∨ (W.isFn = false ∧ undefinedRef W = true) := by
+    (i ∈ g.pending ∧ g.fty i = .ref) ∨ (i ∉ g.pending ∧ g.fty i = .res .parsed) := by
   have I := inv_reachable W prog sched
   by_cases hp : i ∈ (run W false (init W prog) sched).g.pending
   · exact Or.inl ⟨hp, I.ginv.free hl i hp⟩
-  · rcases I.ginv.done i hr hd hp with h | h
-    · exact Or.inr (Or.inl ⟨hp, h⟩)
-    · exact Or.inr (Or.inr h)
+  · exact Or.inr ⟨hp, I.ginv.done i hr hd hp⟩
+
+/-- "nothing pending ⇒ nothing left to do", in every reachable state (lock held or not): a name that exists and is
+no longer listed has had its field rewritten. -/
+theorem C20_unlisted_is_rewritten (W : World) (prog : Nat → List Call) (sched : List Nat) (i : Nat)
+    (hr : W.ref i = true) (hd : W.defd i = true) (hp : i ∉ (run W false (init W prog) sched).g.pending) :
+    (run W false (init W prog) sched).g.fty i = .res .parsed :=
+  (inv_reachable W prog sched).ginv.done i hr hd hp
 
 /-- Resolution is permanent: once nothing is left to resolve (e.g. once any call has got as far as parsing),
 every later state, under every continuation of the schedule, still has every existing name rewritten. -/
